@@ -1721,8 +1721,6 @@ impl Vm {
             let class = instance.borrow().class;
             let kind = if class == self.class_store.attribute_error_class() {
                 ErrorKind::AttributeError
-            } else if class == self.class_store.runtime_error_class() {
-                ErrorKind::CompileError
             } else if class == self.class_store.import_error_class() {
                 ErrorKind::ImportError
             } else if class == self.class_store.index_error_class() {
